@@ -50,10 +50,11 @@ def base_programs(tier, with_cont=True):
     else:
         menu = (gen.S_CTRL + gen.S_CTRL_MORE + gen.S_DATA + gen.S_DATA_MORE + gen.S_IF + gen.S_IF_MORE
                 + ((gen.S_CONT + gen.S_CONT_MORE) if with_cont else []))
-        guards = gen.GUARDS + gen.GUARDS_MORE
+        guards = gen.GUARDS + gen.GUARDS_MORE[:2]
         seqs = list(gen.sequences(menu, 2))
-        small = gen.S_CTRL + gen.S_DATA + gen.S_IF
-        seqs += [s for s in gen.sequences(small, 3) if len(s) == 3]
+        core = ["c = Bernoulli(1/2)", "c = 1 - c", "x = x + c", "x = 1", "y = x", "x, y = y, x + y", "x, y = 0, x + y",
+                "if c == 1:\n x = x + 1\nend", "if c == 1:\n c = Bernoulli(1/2)\n x = x + 1\nend"]
+        seqs += [s for s in gen.sequences(core, 3) if len(s) == 3]
     for seq in seqs:
         for g in guards:
             if not gen.guard_ok(seq, g):
@@ -63,7 +64,7 @@ def base_programs(tier, with_cont=True):
     for seq in seqs:
         if len(seq) == 1 or (tier != "quick" and len(seq) == 2):
             progs.append(gen.render(seq, "true", "sym"))
-            if tier != "quick":
+            if tier != "quick" and len(seq) == 1:
                 progs.append(gen.render(seq, "true", "rand"))
     return _uniq(progs)
 
